@@ -9,7 +9,7 @@ From GM Require Import Base.Result Base.StrOrd Facts.GoFacts Facts.Ana Model.Enu
 Import ListNotations.
 Local Open Scope string_scope.
 
-Record ddecl := { dd_file : string; dd_id : string; dd_mentions : list string }.
+Record ddecl := { dd_file : string; dd_id : string; dd_mentions : list string; dd_impl : list string }.
 Record dstate := { ds_cache : list string; ds_decls : list ddecl; ds_imps : list (string * string) }.
 
 Definition predefined_file : string := "predefined.dart".
@@ -62,18 +62,25 @@ Section Gen.
 
   Variable F : nat.   (* fuel of json_id: the nesting depth of anonymous containers *)
 
+  (** identifier and file of the declaration of a cached type (key of generator.Cache, see TsGen.node_key) *)
+  Definition is_time_key (k : string) : bool := String.eqb k "#Date" || String.eqb k "#Time".
+  Definition key_id (k : string) : string := if is_time_key k then "__DateTime_json" else dart_name k.
+  Definition key_file (k : string) : string := if is_time_key k then predefined_file else file_of_named k.
+
   (** the identifier of the declaration emitted for a type *)
   Definition decl_id (t : gty) : result string :=
     match find_node t nodes with
     | None => Crash "no node at this position"
     | Some n =>
-        match nr_kind n with
-        | KdPointer => Crash "pointers not handled by the Dart generator"
-        | KdBasic => match nr_bkind n with Some k => do s <- dart_basic k; Ok (s ++ "_json") | None => Crash "basic node without kind" end
-        | KdTime => Ok "__DateTime_json"
-        | KdArray | KdMap => json_id F t
-        | KdNamed | KdEnum | KdStruct | KdUnion =>
-            match nr_self n with GNamed id => Ok (dart_name id) | _ => Crash "defined type without name" end
+        match node_key n with
+        | Some k => Ok (key_id k)
+        | None =>
+            match nr_kind n with
+            | KdPointer => Crash "pointers not handled by the Dart generator"
+            | KdBasic => match nr_bkind n with Some k => do s <- dart_basic k; Ok (s ++ "_json") | None => Crash "basic node without kind" end
+            | KdArray | KdMap => json_id F t
+            | _ => Crash "defined type without name"
+            end
         end
     end.
 
@@ -91,19 +98,12 @@ Section Gen.
     | KdUnion => Ok (nr_children n)
     end.
 
-  (** the file a node is emitted in *)
+  (** the file a node is emitted in: its own for a cached type, the file of the user for an anonymous slice, array
+      or map, predefined.dart otherwise; it is also the file handed to the children as their parent *)
   Definition out_file (n : nrec) (parent : string) : string :=
-    match nr_kind n with
-    | KdArray | KdMap => parent
-    | KdTime | KdBasic | KdPointer => predefined_file
-    | KdNamed | KdEnum | KdStruct | KdUnion => match nr_self n with GNamed id => file_of_named id | _ => predefined_file end
-    end.
-
-  (** the file handed to the children as their parent *)
-  Definition child_parent (n : nrec) (outfile : string) : string :=
-    match nr_kind n with
-    | KdArray | KdMap => outfile
-    | _ => match nr_self n with GNamed id => file_of_named id | _ => predefined_file end
+    match node_key n with
+    | Some k => key_file k
+    | None => match nr_kind n with KdArray | KdMap => parent | _ => predefined_file end
     end.
 
   Definition union_is_exported (id : string) : bool :=
@@ -122,6 +122,18 @@ Section Gen.
     | t :: r => do x <- g st t; do y <- dgen_list g r (fst x); Ok (fst y, snd x :: snd y)
     end.
 
+  (** what follows the cache test: the children, then the declaration of the type itself with the files of the children
+      as imports *)
+  Definition dtail (g : dstate -> gty -> result (dstate * string)) (outfile : string) (n : nrec) (t : gty) (st1 : dstate)
+    : result (dstate * string) :=
+    do ks <- dkids n;
+    do r <- dgen_list g ks st1;
+    do id <- decl_id t;
+    do ms <- mapM decl_id ks;
+    Ok ({| ds_cache := ds_cache (fst r);
+           ds_decls := (ds_decls (fst r) ++ [{| dd_file := outfile; dd_id := id; dd_mentions := ms; dd_impl := implements_mentions n |}])%list;
+           ds_imps := (ds_imps (fst r) ++ map (fun f => (outfile, f)) (snd r))%list |}, outfile).
+
   Fixpoint dgenerate (fuel : nat) (parent : string) (st : dstate) (t : gty) {struct fuel} : result (dstate * string) :=
     match fuel with
     | O => Crash "out of fuel"
@@ -130,19 +142,12 @@ Section Gen.
       | None => Crash "no node at this position"
       | Some n =>
           let outfile := out_file n parent in
-          let hit := match node_key n with Some k => existsb (String.eqb k) (ds_cache st) | None => false end in
-          if hit then Ok (st, outfile) else
-          let st1 := match node_key n with
-                     | Some k => {| ds_cache := k :: ds_cache st; ds_decls := ds_decls st; ds_imps := ds_imps st |}
-                     | None => st end in
-          do ks <- dkids n;
-          do r <- dgen_list (dgenerate f (child_parent n outfile)) ks st1;
-          do id <- decl_id t;
-          do ms <- mapM decl_id ks;
-          let st2 := fst r in
-          Ok ({| ds_cache := ds_cache st2;
-                 ds_decls := (ds_decls st2 ++ [{| dd_file := outfile; dd_id := id; dd_mentions := ms ++ implements_mentions n |}])%list;
-                 ds_imps := (ds_imps st2 ++ map (fun f => (outfile, f)) (snd r))%list |}, outfile)
+          match node_key n with
+          | Some k =>
+              if existsb (String.eqb k) (ds_cache st) then Ok (st, outfile)
+              else dtail (dgenerate f outfile) outfile n t {| ds_cache := k :: ds_cache st; ds_decls := ds_decls st; ds_imps := ds_imps st |}
+          | None => dtail (dgenerate f outfile) outfile n t st
+          end
       end
     end.
 
@@ -184,5 +189,5 @@ Definition visible_from (st : dstate) (file : string) : list string :=
 Definition links_closed (st : dstate) : bool :=
   forallb (fun d =>
     forallb (fun m => existsb (fun d' => String.eqb (dd_id d') m && existsb (String.eqb (dd_file d')) (visible_from st (dd_file d))) (ds_decls st))
-            (dd_mentions d))
+            (dd_mentions d ++ dd_impl d))
     (ds_decls st).
